@@ -28,13 +28,17 @@ type localCtx struct {
 	guard      []*Term
 	pending    [][]bool
 	reads      []readRec
+	origin     map[*Term][]*Term
+	usedContext bool // the local run consulted facts of the outer path: result not cacheable
 }
 
 type sumKey string
 
 type sumEntry struct {
+	args  []Value // the actual arguments: keeps the keyed objects alive (no address reuse) and is compared on a hit
 	val   Value
 	reads []readRec
+	bad   bool // the attempt failed (deterministically) for these arguments and this heap state
 }
 
 const (
@@ -121,6 +125,9 @@ func scalarResult(t types.Type) bool {
 }
 
 func (m *Machine) summarizable(fn *ssa.Function) bool {
+	if strings.HasPrefix(fn.Name(), "verifCheck") || strings.HasPrefix(fn.Name(), "verifFail") {
+		return false
+	}
 	res := fn.Signature.Results()
 	if res.Len() == 0 {
 		return false
@@ -185,10 +192,13 @@ func hasSymbolicArg(args []Value) bool {
 }
 
 func (m *Machine) trySummary(fn *ssa.Function, args []Value, env []Value, caller *frame) (Value, bool) {
-	if m.local != nil || m.sumBad[fn] || len(env) > 0 {
+	if m.local != nil || len(env) > 0 {
 		return nil, false
 	}
-	if !m.summarizable(fn) || !hasSymbolicArg(args) {
+	// NOTE: whether a call is summarised must be a deterministic function of the path
+	// state (not of this worker's history), because decision prefixes are replayed on
+	// other workers. Hence: a static purity analysis, and a cache that also remembers failures.
+	if !m.summarizable(fn) || !m.staticallyPure(fn) || !hasSymbolicArg(args) {
 		return nil, false
 	}
 	var sb strings.Builder
@@ -202,8 +212,17 @@ func (m *Machine) trySummary(fn *ssa.Function, args []Value, env []Value, caller
 	}
 	key := sumKey(sb.String())
 	if cacheable {
-		if e, ok := m.sumCache[key]; ok {
-			valid := true
+		e, ok := m.sumCache[key]
+		if !ok {
+			e, ok = m.sumCachePath[key]
+		}
+		if ok {
+			valid := len(e.args) == len(args)
+			for i := 0; valid && i < len(args); i++ {
+				if !sameValue(e.args[i], args[i]) {
+					valid = false
+				}
+			}
 			for _, r := range e.reads {
 				if !sameValue(r.c.v, r.v) {
 					valid = false
@@ -212,20 +231,41 @@ func (m *Machine) trySummary(fn *ssa.Function, args []Value, env []Value, caller
 			}
 			if valid {
 				m.stats.summaryHits++
+				if e.bad {
+					return nil, false
+				}
 				return e.val, true
 			}
 			delete(m.sumCache, key)
+			delete(m.sumCachePath, key)
+		}
+	}
+	perm := true
+	for _, a := range args {
+		if !permanentArg(a) {
+			perm = false
+			break
+		}
+	}
+	store := func(e *sumEntry) {
+		e.args = append([]Value(nil), args...)
+		if perm {
+			m.sumCache[key] = e
+		} else {
+			m.sumCachePath[key] = e
 		}
 	}
 	val, reads, ok := m.summarize(fn, args, env, caller)
 	if !ok {
-		m.sumBad[fn] = true
 		m.stats.summaryFail++
+		if cacheable {
+			store(&sumEntry{bad: true, reads: reads})
+		}
 		return nil, false
 	}
 	m.stats.summaryMiss++
 	if cacheable {
-		m.sumCache[key] = &sumEntry{val: val, reads: reads}
+		store(&sumEntry{val: val, reads: reads})
 	}
 	return val, true
 }
@@ -236,12 +276,19 @@ type localResult struct {
 }
 
 func (m *Machine) summarize(fn *ssa.Function, args []Value, env []Value, caller *frame) (val Value, reads []readRec, ok bool) {
+	defer func() {
+		if !ok && m.sumCtx != nil {
+			reads = m.sumCtx.reads
+		}
+		m.sumCtx = nil
+	}()
 	saveEpoch := m.epoch
 	saveSteps := m.steps
 	saveDepth := m.depth
 	saveRecov := m.recoverable
 	m.epoch++
 	ctx := &localCtx{startEpoch: m.epoch}
+	m.sumCtx = ctx
 	ctx.pending = [][]bool{nil}
 	var results []localResult
 	defer func() {
@@ -258,6 +305,7 @@ func (m *Machine) summarize(fn *ssa.Function, args []Value, env []Value, caller 
 		ctx.pos = 0
 		ctx.trace = ctx.trace[:0]
 		ctx.guard = ctx.guard[:0]
+		ctx.origin = nil
 		v, status := m.runLocal(ctx, fn, args, env, caller)
 		switch status {
 		case 0: // ok
@@ -402,4 +450,114 @@ func (m *Machine) mergeResults(rs []localResult) (Value, bool) {
 		return StrV{out}, true
 	}
 	return nil, false
+}
+
+// staticallyPure: conservative static analysis — the function (and its static callees)
+// cannot write memory that existed before the call, and has no dynamic calls.
+func (m *Machine) staticallyPure(fn *ssa.Function) bool {
+	if v, ok := m.pureCache[fn]; ok {
+		return v == 1
+	}
+	m.pureCache[fn] = 2 // in progress: recursion counts as impure
+	res := m.computePure(fn)
+	if res {
+		m.pureCache[fn] = 1
+	} else {
+		m.pureCache[fn] = 0
+	}
+	return res
+}
+
+func localRoot(v ssa.Value) bool {
+	for i := 0; i < 16; i++ {
+		switch x := v.(type) {
+		case *ssa.Alloc:
+			return true
+		case *ssa.MakeSlice:
+			return true
+		case *ssa.FieldAddr:
+			v = x.X
+		case *ssa.IndexAddr:
+			v = x.X
+		case *ssa.Slice:
+			v = x.X
+		default:
+			return false
+		}
+	}
+	return false
+}
+
+var pureIntrinsics = map[string]bool{
+	"strings.HasPrefix": true, "strings.HasSuffix": true, "strings.ToLower": true, "strings.Contains": true,
+	"strings.TrimPrefix": true, "strings.TrimSuffix": true, "strings.ReplaceAll": true, "strings.Trim": true,
+	"strings.TrimLeft": true, "strings.TrimRight": true, "strings.Split": true, "strings.SplitN": true, "strings.IndexByte": true,
+	"unicode.Is": true, "unicode.ToLower": true, "unicode/utf8.ValidString": true, "unicode/utf8.RuneLen": true,
+	"math.Pow": true, "strconv.Itoa": true, "strconv.FormatInt": true, "strconv.FormatUint": true,
+	"strings.Clone": true, "internal/stringslite.Clone": true, "strconv.cloneString": true,
+}
+
+func (m *Machine) computePure(fn *ssa.Function) bool {
+	if fn.Blocks == nil {
+		return false
+	}
+	if fn.Pkg != nil && strings.HasSuffix(fn.Pkg.Pkg.Path(), "/internal/vnd") {
+		return false
+	}
+	for _, b := range fn.Blocks {
+		for _, ins := range b.Instrs {
+			switch x := ins.(type) {
+			case *ssa.Store:
+				if !localRoot(x.Addr) {
+					return false
+				}
+			case *ssa.MapUpdate, *ssa.Go, *ssa.Defer, *ssa.Send, *ssa.Select, *ssa.RunDefers:
+				return false
+			case *ssa.Call:
+				if _, ok := x.Call.Value.(*ssa.Builtin); ok {
+					bn := x.Call.Value.(*ssa.Builtin).Name()
+					if bn == "copy" {
+						if !localRoot(x.Call.Args[0]) {
+							return false
+						}
+					}
+					if bn == "delete" || bn == "recover" {
+						return false
+					}
+					continue
+				}
+				callee := x.Call.StaticCallee()
+				if callee == nil {
+					return false
+				}
+				if pureIntrinsics[callee.String()] {
+					continue
+				}
+				if _, isIntr := intrTable[callee.String()]; isIntr {
+					return false
+				}
+				if !m.staticallyPure(callee) {
+					return false
+				}
+			}
+		}
+	}
+	return true
+}
+
+// permanentArg: the argument does not refer to an object of the current path
+// (entries keyed on path objects are dropped at the end of the path).
+func permanentArg(v Value) bool {
+	switch x := v.(type) {
+	case *Term, StrV, FloatV, nil:
+		return true
+	case PtrV:
+		return x.alts == nil && (x.c == nil || x.c.epoch == 0)
+	case SliceV:
+		if x.arr == nil {
+			return true
+		}
+		return len(x.arr.cells) > 0 && x.arr.cells[0].epoch == 0
+	}
+	return false
 }
